@@ -173,10 +173,32 @@ def o4(W, ob):
                  'check_initial_sync stores %s' % key(v), where(f, w['line']))
         # for every is_synchronized() test, the not-synchronized outcome cannot reach the store
         tests = [t for t in c.calls() if callee_matches(t.callee, 'UdpProtocol::is_synchronized')]
-        ob.require_count(len(tests), 2, 'is_synchronized tests (remotes and spectators)')
         cx = W.ctx(c)
         G = W.guards(c)
         roots = set()
+        # the same test as an iterator predicate: `map.values().any(|e| !e.is_synchronized())` / `.all(|e| e.is_synchronized())` followed by a branch one
+        # outcome of which cannot reach the store
+        chains = 0
+        for t in c.calls():
+            if last_seg(t.callee.best) not in ('any', 'all') or len(t.args) < 2:
+                continue
+            cl = closure_of_operand(W, c, t.args[1])
+            if not (cl and cl[0] == 'closure' and any(callee_matches(x.callee, 'UdpProtocol::is_synchronized') for x in cl[1].calls())):
+                continue
+            e = closure_return_expr(W, cl[1])
+            negated = e[0] == 'un' and e[1] == 'Not'
+            if (last_seg(t.callee.best) == 'any') != negated:
+                ob.fail('check_initial_sync|iterator-test-polarity', '`%s` over is_synchronized() has the wrong polarity in check_initial_sync' % last_seg(t.callee.best), where(c, t.line))
+                continue
+            srcs = [term for seg, term in iter_chain(W, c, t) if seg in ('values', 'values_mut', 'iter', 'iter_mut', 'into_iter') and term.args and term.args[0].is_place()]
+            for sx in srcs:
+                roots.add(cx.ap_carry(sx.args[0].place).s(c, generic=True))
+            nb = t.target
+            outs = [s2 for s2 in cfg.succ[nb] if w['bb'] not in cfg.reachable(s2) and w['bb'] != s2] if c.blocks[nb].term.k == 'switch' else []
+            ob.check(len(outs) == 1, 'check_initial_sync|unsynchronized-endpoint-blocks', 'an endpoint that is not synchronized prevents Running',
+                     'after the `%s` over is_synchronized() the store to Running is reachable on both outcomes' % last_seg(t.callee.best), where(c, t.line))
+            chains += 1
+        ob.require_count(len(tests) + chains, 2, 'is_synchronized tests (remotes and spectators)')
         for t in tests:
             roots.add(cx.ap_carry(t.args[0].place).s(c, generic=True))
             nb = t.target
